@@ -14,16 +14,29 @@ reads as the end of the expression).
 -/
 namespace Ypv
 
-/-- `ensure_escaped(value, sym)` for one symbol: Python splits on the two-character text
-`\sym` (left-most, non-overlapping), puts a backslash before every remaining `sym` of the pieces and
-joins them with `\sym` again. -/
+/-- `ensure_escaped(value, sym)` for one symbol, as it is after the proposed repair
+`fixes/C08-2.patch`: a left-to-right scan in which a backslash and the character behind it are
+copied as they are (for the backslash symbol itself: only a pair of backslashes), and every other
+occurrence of the symbol gets a backslash.  (The pinned code split the text on `\sym`, which
+mistakes the second half of an escaped backslash for the symbol's escape mark.) -/
 def esc1 (sym : Char) : Str → Str
   | [] => []
   | [a] => if a = sym then ['\\', a] else [a]
   | a :: b :: rest =>
-    if a = '\\' ∧ b = sym then '\\' :: sym :: esc1 sym rest
+    if a = '\\' ∧ (sym ≠ '\\' ∨ b = '\\') then a :: b :: esc1 sym rest
     else if a = sym then '\\' :: a :: esc1 sym (b :: rest)
     else a :: esc1 sym (b :: rest)
+
+/-- The blank-escaping of `SearchTerms.__str__` (`"\\ ".join(part.replace(" ", "\\ ") for part in
+term.split("\\ "))`): split on the two-character text `\sym` (left-most, non-overlapping), escape
+every remaining `sym`, join again. -/
+def splitEsc1 (sym : Char) : Str → Str
+  | [] => []
+  | [a] => if a = sym then ['\\', a] else [a]
+  | a :: b :: rest =>
+    if a = '\\' ∧ b = sym then '\\' :: sym :: splitEsc1 sym rest
+    else if a = sym then '\\' :: a :: splitEsc1 sym (b :: rest)
+    else a :: splitEsc1 sym (b :: rest)
 
 /-- `YAMLPath.ensure_escaped(value, *symbols)` (single-character symbols). -/
 def ensureEscaped (syms : List Char) (v : Str) : Str := syms.foldl (fun acc s => esc1 s acc) v
@@ -55,7 +68,7 @@ def searchStr (inv : Bool) (m : Method) (attr term : Str) : Str :=
       match regexDelim term with
       | some d => d :: (term ++ [d])
       | none => '/' :: (replaceSlash term ++ ['/'])
-    else esc1 ' ' term
+    else splitEsc1 ' ' term
   '[' :: (attr ++ (if inv then ['!'] else []) ++ m.text ++ safe ++ [']'])
 
 /-- `SearchKeywordTerms.__str__` -/
@@ -79,7 +92,9 @@ def renderSeg (sep : Char) (addSep : Bool) : Seg → Str
   | (.key, a) => (if addSep then [sep] else []) ++ ensureEscaped (keySyms sep) (attrsStr a)
   | (.index, a) => '[' :: (attrsStr a ++ [']'])
   | (.matchAll, _) => (if addSep then [sep] else []) ++ ['*']
-  | (.anchor, a) => if addSep then '[' :: '&' :: (attrsStr a ++ [']']) else '&' :: attrsStr a
+  | (.anchor, a) =>
+    let name := ensureEscaped (keySyms sep) (attrsStr a)
+    if addSep then '[' :: '&' :: (name ++ [']']) else '&' :: name
   | (.keywordSearch, a) => attrsStr a
   | (.search, .search inv m attr term) => searchStr inv m attr term
   | (.search, _) => []
@@ -167,17 +182,13 @@ def PathObj.setSep (p : PathObj) (v : SepOpt) : Except PErr PathObj :=
     | .error e => .error e
     | .ok (u, p) => .ok { p with strd := render v.isFslash u, sep := v }
 
-/-- the text `__eq__` compares: a fresh copy, separator set to FSLASH, `str()` -/
-def canonF (original : Str) : Except PErr Str :=
-  match (PathObj.new original).setSep .fslash with
-  | .error e => .error e
-  | .ok p => match p.str with
-    | .error e => .error e
-    | .ok (s, _) => .ok s
-
-/-- `YAMLPath.__eq__` between two paths (or a path and a text) given their `original` texts -/
+/-- `YAMLPath.__eq__` between two paths (or a path and a text) given their `original` texts, as it
+is after the proposed repair `fixes/C08-3.patch`: fresh copies of both sides are parsed
+(`escaped`, separator inferred) and the segments are compared field by field.  (The pinned code
+compared the forward-slash renderings of the *unescaped* segments, which differ between notations
+for a key containing a separator character.) -/
 def eqModel (o1 o2 : Str) : Except PErr Bool :=
-  match canonF o1, canonF o2 with
+  match parse true (normOriginal o1), parse true (normOriginal o2) with
   | .ok a, .ok b => .ok (a == b)
   | .error e, _ => .error e
   | _, .error e => .error e
@@ -204,13 +215,13 @@ def PathObj.pop (p : PathObj) : Except PErr (Seg × PathObj) :=
     | some last =>
       let (s, p) := p.getSep
       let removable := render s.isFslash [last]
-      let pref := s.char :: removable
+      let pref := if s = .fslash then removable else s.char :: removable
       let now := p.original
       if endsWith now pref then .ok (last, p.setOriginal (now.take (now.length - pref.length)))
       else if endsWith now removable then
         .ok (last, p.setOriginal (now.take (now.length - removable.length)))
       else if s = .fslash ∧ endsWith now (removable.drop 1) then
-        .ok (last, p.setOriginal (now.take (now.length - removable.length + 1)))
+        .ok (last, p.setOriginal (now.take (now.length + 1 - removable.length)))
       else .ok (last, p)
 
 def startsWith (s pre : Str) : Bool := s.take pre.length = pre
